@@ -36,7 +36,7 @@ ANCHORS = [
     "acnportal.acnsim.models.battery:Linear2StageBattery._charge_stepwise",
     "acnportal.acnsim.models.ev:EV.charge",
 ]
-REQUIRED = ["second_simulations_with_reset_evs", "calls_with_voltage_or_period_changing_on_one_battery", "battery_json_round_trips_mid_sequence", "charge_calls_judged", "regime:ideal", "regime:l2-continuous", "regime:l2-stepwise",
+REQUIRED = ["charge_calculation_switched_on_a_living_battery", "second_simulations_with_reset_evs", "calls_with_voltage_or_period_changing_on_one_battery", "battery_json_round_trips_mid_sequence", "charge_calls_judged", "regime:ideal", "regime:l2-continuous", "regime:l2-stepwise",
             "regime:l2-continuous+noise", "regime:l2-stepwise+noise", "sim_cells_checked", "suite:charge_calls_judged", "resets_above_capacity", "resets_within_capacity"]
 BUDGET_S = {"quick": 200, "thorough": 2400}
 
@@ -242,6 +242,10 @@ def _run_seq(case, obs):
             V_ = rng.choice([case["V"], 120, 208, 240, 277, 400, 480])
             T_ = rng.choice([case["T"], case["T"], 1, 5, 15])
             obs.ev("calls_with_voltage_or_period_changing_on_one_battery")
+        if b["t"] == "l2" and case.get("vary") and rng.random() < 0.04 and hasattr(batt, "charge_calculation"):
+            # the public charge_calculation attribute is switched on the living object (charge() re-reads it on every call)
+            batt.charge_calculation = "stepwise" if batt.charge_calculation == "continuous" else "continuous"
+            obs.ev("charge_calculation_switched_on_a_living_battery")
         if case.get("json_p") and rng.random() < case["json_p"]:
             batt = type(batt).from_json(batt.to_json())
             obs.ev("battery_json_round_trips_mid_sequence")
